@@ -143,7 +143,10 @@ theorem spec_withReparse (L : Lens T C) (ops : List (Op T C)) (t : T) :
     (withReparse ops).foldl (fun t op => specStep L op t) t = ops.foldl (fun t op => specStep L op t) t := by
   induction ops generalizing t with
   | nil => rfl
-  | cons op ops ih => simp [withReparse, specStep, ih]
+  | cons op ops ih =>
+    simp only [withReparse, List.foldl_cons]
+    have : specStep L Op.reparse (specStep L op t) = specStep L op t := rfl
+    rw [this, ih]
 
 theorem withReparse_disciplined (ops : List (Op T C)) (hd : ∀ op ∈ ops, op.disciplined = true) :
     ∀ op ∈ withReparse ops, op.disciplined = true := by
@@ -205,5 +208,36 @@ theorem cloneTreeOnly_breaks :
 /-- non-vacuity: the hypotheses of the refinement theorem are met by a history that mixes all four kinds -/
 example : ser toy (run toy [.shapes (· + 1), .query, .tree (fun t => (t.1, t.1 + 5)), .shapes (· * 3)] ⟨(1, 0), none⟩)
     = (6, 7) := by decide
+
+/-! ### the discipline table read off the source -/
+
+open PicoSVG.Gen.Ops in
+/-- every public operation with an `inplace` switch: makes its copy with `_clone()` and runs its own in-place form on it,
+    and returns `self` from every exit of the in-place form -/
+theorem gen_copy_and_return :
+    discipline.all (fun (_, copy, _, _, ret) => copy == "clone" && ret == "self") = true := by decide
+
+open PicoSVG.Gen.Ops in
+/-- every public operation begins either by flushing (`_update_etree`: the tree-level kind, `Op.tree`) or by loading the
+    cache (`_elements` / `shapes`: the shape-level kind, `Op.shapes`) — none touches the tree before that -/
+theorem gen_first_call :
+    discipline.map (fun (n, _, first, _, _) => (n, first)) =
+      [("absolute", "_elements"), ("shapes_to_paths", "_elements"), ("expand_shorthand", "_elements"),
+       ("apply_style_attributes", "_update_etree"), ("resolve_use", "_update_etree"), ("simplify", "_update_etree"),
+       ("clip_to_viewbox", "_update_etree"), ("evenodd_to_nonzero_winding", "_elements"), ("round_floats", "shapes"),
+       ("remove_empty_subpaths", "shapes"), ("remove_unpainted_shapes", "_update_etree"),
+       ("remove_nonsvg_content", "_update_etree"), ("remove_processing_instructions", "_update_etree"),
+       ("remove_anonymous_symbols", "_update_etree"), ("remove_title_meta_desc", "_update_etree"),
+       ("set_attributes", "_update_etree"), ("remove_attributes", "_update_etree"), ("normalize_opacity", "shapes"),
+       ("resolve_nested_svgs", "_update_etree"), ("topicosvg", "_update_etree")] := by decide
+
+open PicoSVG.Gen.Ops in
+/-- `_clone()` flushes before it copies (`clone` above, not `cloneTreeOnly`); `toetree()` flushes before it hands out
+    the tree; `shapes()` goes through `_elements()` -/
+theorem gen_helpers :
+    callsClone = ["_update_etree", "@svg_root", ".deepcopy", "SVG"]
+    ∧ callsToetree.head? = some "_update_etree"
+    ∧ callsTostring.head? = some "toetree"
+    ∧ callsShapes.head? = some "_elements" := by decide
 
 end PicoSVG.Props.C15
